@@ -28,6 +28,9 @@ JudgeRun(T, r, first) ==
   /\ (\A p \in 1..(n - 1) : T.ranks[r.outR[p]] <= T.ranks[r.outR[p + 1]]) \/ Say(T, "V", "C20.rank_first", "ranks-not-monotone")
   /\ (first.exc # "" \/ ~SafeSet(T.names) \/ (ZSeq(T, r.outN) = ZSeq(T, first.outN) /\ ZSeq(T, r.outR) = ZSeq(T, first.outR))
         \/ Say(T, "V", "C20.consistent", T.fam))
+  \* history: after the same scaffold objects were renamed in place (the names rotated among them) the same multiset of names comes out
+  \* in the same order (outN2: base indexes of the names in output order)
+  /\ (~SafeSet(T.names) \/ Len(r.outN2) # n \/ ZSeq(T, r.outN2) = ZSeq(T, r.outN) \/ Say(T, "V", "C20.consistent", T.fam \o "/after-rename"))
   /\ LET inNames == [p \in 1..n |-> T.names[r.perm[p]]]  inRanks == [p \in 1..n |-> T.ranks[r.perm[p]]]
          outIn(o) == [p \in 1..n |-> PosIn(r.perm, o[p])]
      IN (IsStableSorted(inNames, inRanks, outIn(r.outR)) /\ IsStableSorted(inNames, [p \in 1..n |-> 1], outIn(r.outN)))
